@@ -4,6 +4,7 @@ package obykeyset
 
 import (
 	"strings"
+	"time"
 
 	"github.com/relex/gotils/logger"
 	"github.com/relex/gotils/promexporter/promreg"
@@ -152,9 +153,19 @@ type verifDrain struct {
 	done chan struct{}
 }
 
-func verifOrderScenario() {
+func verifOrderScenario(workerMayStall bool) {
 	defer func(v int) { defs.IntermediateBufferMaxNumLogs = v }(defs.IntermediateBufferMaxNumLogs)
 	defs.IntermediateBufferMaxNumLogs = 2
+	// a pipeline worker may be busy for a while after taking a batch (a slow disk while spilling, a throttled
+	// process): any stall shorter than the hand-over timeout the design allows (IntermediateChannelTimeout, 60 s)
+	// must not cost a record
+	var stall time.Duration
+	if workerMayStall {
+		stall = []time.Duration{0, 5 * time.Second, defs.IntermediateChannelTimeout - 15*time.Second}[sym.Choice("workerStall", 3)]
+		if stall > 0 {
+			defs.IntermediateBufferMaxNumLogs = 1 // every record is handed over at once: the third one meets a full channel while the worker is busy
+		}
+	}
 	var drains []*verifDrain
 	starter := func(l logger.Logger, m promreg.MetricCreator, input <-chan []*base.LogRecord, bufferID string, outputTag string, onStopped func()) {
 		d := &verifDrain{id: bufferID, done: make(chan struct{})}
@@ -163,6 +174,9 @@ func verifOrderScenario() {
 			for batch := range input {
 				for _, r := range batch {
 					d.msgs = append(d.msgs, r.Fields[2])
+				}
+				if stall > 0 {
+					time.Sleep(stall)
 				}
 			}
 			onStopped()
@@ -209,7 +223,7 @@ func verifOrderScenario() {
 //verif:delays 1
 //verif:clock virtual
 //verif:reach done two-keys
-func VerifC01_SinkFlushesEverything() { verifOrderScenario() }
+func VerifC01_SinkFlushesEverything() { verifOrderScenario(true) }
 
 // VerifC05_PerKeyOrder: the same run read as the ordering guarantee.
 //
@@ -218,7 +232,7 @@ func VerifC01_SinkFlushesEverything() { verifOrderScenario() }
 //verif:delays 1
 //verif:clock virtual
 //verif:reach done two-keys
-func VerifC05_PerKeyOrder() { verifOrderScenario() }
+func VerifC05_PerKeyOrder() { verifOrderScenario(false) }
 
 // VerifC06_ConcurrentConnections: two connections, each with its own sink,
 // deliver records of different key tuples at the same time (the scheduler
